@@ -184,29 +184,46 @@ def arm_Comparison(ctx, ip, arm):
 
 
 def arm_ObjectValues(ctx, ip, arm):
+    """an object -> the array of its values (in the map's own order); anything else -> null. The kind test may be a match on
+    the value or a case analysis on as_object()'s answer."""
     b = ip.b
     sw = None
     for blk in sorted(arm.blocks):
         ve = ip.br.variant_edges(blk)
-        if ve and ve["adt"] == V and ip.is_res(ve["scrutinee"], "ObjectValues.node"):
-            sw = (blk, ve)
+        if ve and ve["adt"] == V and ip.is_res(ve["scrutinee"], "ObjectValues.node") and set(ve["edges"]) == {"Object"}:
+            sw = (blk, ve["edges"]["Object"], ve["otherwise"])
+        if ve and ve["adt"] == "std::option::Option" and ve["scrutinee"] and all(
+                t[0] == "view" and t[1] == "object" and ip.is_res({t[2]}, "ObjectValues.node") for t in ve["scrutinee"]):
+            st, nt = ve["edges"].get("Some", ve["otherwise"]), ve["edges"].get("None", ve["otherwise"])
+            if st != nt:
+                sw = (blk, st, nt)
     if sw is None:
         chk(ctx, ip, arm, "kind-test", False, "the operand's result is matched on its kind")
         return
-    blk, ve = sw
-    ok = set(ve["edges"]) == {"Object"}
-    obj_ok = null_ok = False
+    blk, obj_t, other_t = sw
+
+    def is_map(t):
+        return (t[0] == "field" and t[2] == "Object.0" and ip.is_res({t[1]}, "ObjectValues.node")) or \
+            (t[0] == "view" and t[1] == "object" and ip.is_res({t[2]}, "ObjectValues.node"))
+
+    def is_values_array(t):
+        return t[0] == "agg" and t[1] == V + "::Array" and bool(t[2][0]) and all(
+            c[0] == "call" and c[1] == "std::iter::Iterator::collect" and bool(c[2][0]) and all(i[0] == "iter" and is_map(i[1]) for i in c[2][0]) for c in t[2][0])
+
+    vals = set()
     for ob, terms in arm.oks:
-        if edge_dominates(b, (blk, ve["edges"].get("Object", -1)), ob):
-            obj_ok = all(t[0] == "agg" and t[1] == V + "::Array" and all(
-                c[0] == "call" and c[1] == "std::iter::Iterator::collect" and all(
-                    i[0] == "iter" and i[1][0] == "field" and i[1][2] == "Object.0" and ip.is_res({i[1][1]}, "ObjectValues.node") for i in c[2][0])
-                for c in t[2][0]) for t in terms)
-        elif edge_dominates(b, (blk, ve["otherwise"]), ob):
-            null_ok = terms == {("agg", V + "::Null", (), ())}
-    vals = [t for x, t in arm.calls if t["callee"].endswith("BTreeMap::<K, V, A>::values")]
-    chk(ctx, ip, arm, "object", ok and obj_ok and len(vals) == 1, "an object yields the array of its values (BTreeMap::values, cloned, collected)")
-    chk(ctx, ip, arm, "non-object", null_ok, "anything else yields null")
+        vals |= set(terms)
+    arrs = {t for t in vals if is_values_array(t)}
+    nuls = {t for t in vals if t == ("agg", V + "::Null", (), ())}
+    obj_ok = bool(arrs) and len(arrs) + len(nuls) == len(vals)
+    # the array is built on the object side only
+    from ..parsing import region_aggs
+    for bb, i, st in region_aggs(b, arm.blocks, V):
+        if st["rv"]["variant"] == "Array" and not edge_dominates(b, (blk, obj_t), bb):
+            obj_ok = False
+    vcalls = [t for x, t in arm.calls if t["callee"].endswith("BTreeMap::<K, V, A>::values")]
+    chk(ctx, ip, arm, "object", obj_ok and len(vcalls) == 1, "an object yields the array of its values (BTreeMap::values, cloned, collected)")
+    chk(ctx, ip, arm, "non-object", bool(nuls), "anything else yields null")
 
 
 def _array_or_null(ctx, ip, arm, field):
@@ -289,7 +306,7 @@ def arm_Flatten(ctx, ip, arm):
     blk, some_t = r
     outer = lambda t: t[0] == "elem" and t[1][0] == "view" and t[1][1] == "array" and ip.is_res({t[1][2]}, "Flatten.node")
     pushes = [(x, t) for x, t in arm.calls if t["callee"].endswith("Vec::<T, A>::push")]
-    exts = [(x, t) for x, t in arm.calls if t["callee"] == "std::iter::Extend::extend"]
+    exts = [(x, t) for x, t in arm.calls if t["callee"] == "std::iter::Extend::extend" or t["callee"].endswith("Vec::<T, A>::extend_from_slice")]
     ok = len(pushes) == 1 and len(exts) == 1 and len(arm.recursive) == 1
     chk(ctx, ip, arm, "one-level", ok, f"exactly one push site, one extend site and no evaluation inside the loop (pushes {len(pushes)}, extends {len(exts)}, evaluations {len(arm.recursive)})")
     if not ok:
@@ -297,7 +314,8 @@ def arm_Flatten(ctx, ip, arm):
     pv = ip.o.of_operand(pushes[0][1]["args"][1])
     ev = ip.o.of_operand(exts[0][1]["args"][1])
     ok_push = all(outer(t) for t in pv) and bool(pv)
-    ok_ext = all(i[0] == "iter" and i[1][0] == "view" and i[1][1] == "array" and outer(i[1][2]) for i in ev) and bool(ev)
+    ok_ext = all((i[0] == "iter" and i[1][0] == "view" and i[1][1] == "array" and outer(i[1][2])) or
+                 (i[0] == "view" and i[1] == "array" and outer(i[2])) for i in ev) and bool(ev)
     chk(ctx, ip, arm, "non-array-element-kept", ok_push, "a non-array element is pushed as it is")
     chk(ctx, ip, arm, "array-element-spliced", ok_ext, "an array element contributes its own elements (one level, not recursively flattened)")
     # which branch: the inner as_array() match
